@@ -46,6 +46,22 @@ def minify_all(ctx, exe, sources, tag, cfgs=None):
     return vlib.read_ndjson(cout)
 
 
+def _read_lines(path):
+    """complete ndjson lines of a (possibly truncated) file"""
+    out = []
+    if os.path.exists(path):
+        for l in open(path):
+            if l.endswith('\n') and l.strip():
+                try:
+                    out.append(json.loads(l))
+                except ValueError:
+                    pass
+    return out
+
+
+STALLS = []
+
+
 def node_observe(ctx, pairs, tag, timeout_ms=None, jobs=None):
     """pairs: list of dict(id, in, out, seed, nenv, probe, ast).  Runs js/c01_run.js in parallel shards."""
     jobs = jobs or vlib.JOBS
@@ -67,13 +83,66 @@ def node_observe(ctx, pairs, tag, timeout_ms=None, jobs=None):
     if timeout_ms:
         env['C01_TIMEOUT'] = str(timeout_ms)
 
+    stall_s = float(os.environ.get('C01_STALL', '60'))
+    stalls = STALLS
+
     def one(s):
-        outp = files[s].replace('-in.ndjson', '-out.ndjson')
-        r = subprocess.run(['node', '--expose-internals', RUNNER, files[s], outp], capture_output=True,
-                           text=True, env=env, timeout=3000)
-        if r.returncode != 0:
-            raise vlib.Infra('node runner failed (%d): %s' % (r.returncode, (r.stderr or r.stdout)[-2000:]))
-        return vlib.read_ndjson(outp)
+        """one node worker under a watchdog: a worker that makes no progress (no new output line, no new progress marker) for
+        stall_s seconds is killed, the pair it was on is recorded as a runner stall (never a verdict) and a new worker goes on
+        with the remaining pairs"""
+        todo = list(buckets[s])
+        results = []
+        attempt = 0
+        while todo:
+            inp = files[s] if attempt == 0 else files[s].replace('-in.ndjson', '-in%d.ndjson' % attempt)
+            if attempt:
+                vlib.write_ndjson(inp, todo)
+            outp = inp.replace('.ndjson', '-out.ndjson')
+            prog = outp + '.progress'
+            for f in (outp, prog):
+                if os.path.exists(f):
+                    os.remove(f)
+            errp = outp + '.stderr'
+            with open(errp, 'w') as ef:
+                proc = subprocess.Popen(['node', '--expose-internals', RUNNER, inp, outp], stdout=subprocess.DEVNULL, stderr=ef, env=env)
+                last = (-1, -1.0)
+                t_last = time.time()
+                stalled = False
+                while proc.poll() is None:
+                    time.sleep(0.25)
+                    try:
+                        cur = (os.path.getsize(outp) if os.path.exists(outp) else 0, os.path.getmtime(prog) if os.path.exists(prog) else 0.0)
+                    except OSError:
+                        cur = last
+                    if cur != last:
+                        last, t_last = cur, time.time()
+                    elif time.time() - t_last > stall_s:
+                        proc.kill()
+                        proc.wait()
+                        stalled = True
+                        break
+            done = vlib.read_ndjson_tolerant(outp) if hasattr(vlib, 'read_ndjson_tolerant') else _read_lines(outp)
+            results += done
+            if not stalled:
+                if proc.returncode != 0:
+                    raise vlib.Infra('node runner failed (%d): %s' % (proc.returncode, open(errp).read()[-2000:]))
+                break
+            try:
+                sid = int(open(prog).read().strip())
+            except (OSError, ValueError):
+                raise vlib.Infra('node runner stalled before it reported progress: ' + open(errp).read()[-1000:])
+            pos = [k for k, p in enumerate(todo) if p['id'] == sid]
+            if not pos:
+                raise vlib.Infra('node runner stalled on an unknown pair id %s' % sid)
+            stalls.append(dict(id=sid, src=todo[pos[0]]['in'][:400], out=todo[pos[0]]['out'][:400]))
+            vlib.log('  runner stall (> %.0fs without progress), skipped: %r' % (stall_s, todo[pos[0]]['in'][:200]))
+            results = [r for r in results if r['id'] != sid]
+            results.append(dict(id=sid, env=-1, skip='runner stall'))
+            todo = todo[pos[0] + 1:]
+            attempt += 1
+            if len(stalls) > 5:
+                raise vlib.Infra('more than 5 runner stalls, e.g. %r' % stalls[0]['src'][:200])
+        return results
 
     with ThreadPoolExecutor(max_workers=shards) as ex:
         outs = list(ex.map(one, range(shards)))
@@ -274,6 +343,7 @@ def run(ctx):
     t1 = time.time()
     pairs, lines, rej, astlines = run_batch(ctx, exe, items, 'main', stats=stats)
     vlib.log('engine recorder %.1fs' % (time.time() - t1))
+    stats['runner_stalls'] = list(STALLS)     # pairs a node worker made no progress on (killed by the watchdog; never a verdict)
     t2 = time.time()
     fr = gen.validate_asts(ctx, pairs, astlines, stats)
     vlib.log('spec recorder %.1fs' % (time.time() - t2))
